@@ -57,7 +57,7 @@ fn legal_sfn(sfn: &[u8; 11]) -> Result<(), String> {
 }
 
 /// check every entry of directory `path` in the raw image
-fn check_dir(st: &harness::dev::DevState, path: &str, expect: &BTreeSet<String>, ctx: &str) -> Vec<(String, String)> {
+fn check_dir(st: &harness::dev::DevState, path: &str, expect: &BTreeSet<String>, foreign: &BTreeSet<[u8; 11]>, ctx: &str) -> Vec<(String, String)> {
     let mut v = Vec::new();
     let d = match decoder::decode(st, &DecodeOpts { read_content: false, ..Default::default() }) {
         Ok(d) => d,
@@ -71,6 +71,10 @@ fn check_dir(st: &harness::dev::DevState, path: &str, expect: &BTreeSet<String>,
             continue;
         }
         names.insert(e.name.clone());
+        if foreign.contains(&e.sfn) {
+            shorts.insert(e.sfn);
+            continue;
+        }
         if let Err(m) = legal_sfn(&e.sfn) {
             v.push(("C16/illegal-short-name".into(), format!("{ctx}: entry {:?} has short name {:?}: {m}", e.name, String::from_utf8_lossy(&e.sfn))));
         }
@@ -113,6 +117,17 @@ fn population(cfg: &Cfg, dir_path: &str, names: &[String], remove_every: usize, 
         let side = if dir_path != "/" { fs.root_dir().create_dir("side").ok() } else { None };
         let mut live: BTreeSet<String> = BTreeSet::new();
         let mut folded: BTreeSet<String> = BTreeSet::new();
+        let mut foreign: BTreeSet<[u8; 11]> = BTreeSet::new();
+        if dir_path == "/" {
+            let d0 = decoder::decode(&st.borrow(), &DecodeOpts { read_content: false, ..Default::default() }).map_err(|e| ("C16/undecodable".to_string(), e))?;
+            if let Some(dd) = d0.dir_by_path("/") {
+                for e in &dd.entries {
+                    live.insert(e.name.clone());
+                    folded.insert(model::fold(&e.name));
+                    foreign.insert(e.sfn);
+                }
+            }
+        }
         let mut created = 0usize;
         for (i, name) in names.iter().enumerate() {
             if !model::name_errors(name).0.is_empty() || name == "." || name == ".." {
@@ -193,7 +208,7 @@ fn population(cfg: &Cfg, dir_path: &str, names: &[String], remove_every: usize, 
                 }
             }
             if check_every > 0 && (created % check_every == 0 || i + 1 == names.len()) {
-                let probs = check_dir(&st.borrow(), dir_path, &live, &format!("{label} after {created} creations"));
+                let probs = check_dir(&st.borrow(), dir_path, &live, &foreign, &format!("{label} after {created} creations"));
                 if !probs.is_empty() {
                     return Err(probs.into_iter().next().unwrap());
                 }
@@ -206,7 +221,7 @@ fn population(cfg: &Cfg, dir_path: &str, names: &[String], remove_every: usize, 
                 let d = decoder::decode(&st.borrow(), &DecodeOpts { read_content: false, ..Default::default() }).map_err(|e| ("C16/undecodable".to_string(), e))?;
                 if let Some(dd) = d.dir_by_path(dir_path) {
                     for e in &dd.entries {
-                        if e.is_dot() {
+                        if e.is_dot() || foreign.contains(&e.sfn) {
                             continue;
                         }
                         let disp = decoder::short_display(&e.sfn, 0);
@@ -217,7 +232,7 @@ fn population(cfg: &Cfg, dir_path: &str, names: &[String], remove_every: usize, 
                 }
             }
         }
-        let probs = check_dir(&st.borrow(), dir_path, &live, &format!("{label} at the end ({created} creations)"));
+        let probs = check_dir(&st.borrow(), dir_path, &live, &foreign, &format!("{label} at the end ({created} creations)"));
         if let Some(p) = probs.into_iter().next() {
             return Err(p);
         }
@@ -229,6 +244,28 @@ fn population(cfg: &Cfg, dir_path: &str, names: &[String], remove_every: usize, 
         Ok(Ok(())) => {}
     }
     v
+}
+
+/// the alias volume with a root directory that already holds entries made by another implementation
+fn foreign_cfg() -> Cfg {
+    use harness::builder::{sfn_slot, Times};
+    let spec = vol::VolSpec { name: "a12-r512-foreign".into(), fat: FatType::Fat12, bps: 512, spc: 4, fats: 2, root_entries: 512, clusters: Some(600), free: None, tail: 0 };
+    let (mut img, c) = vol::build(&spec).expect("alias volume");
+    let g = vol::geo_of(&img);
+    let off = g.root_off() as usize;
+    let slots: Vec<([u8; 11], u8)> = vec![
+        (*b"HC\xE9\xE9\xE9\xE9~1TXT", 0),   // OEM characters where the library keeps the hash
+        (*b"HCOLLI~7TXT", 0),              // tails the library never hands out
+        (*b"HCOLL~10TXT", 0),
+        (*b"HCOLLI~2TXT", 0x18),           // a hole-free family is not guaranteed on a foreign volume
+        (*b"\x05COLLI~1TXT", 0),           // 0xE5 lead byte stored as 0x05
+        (*b"README  TXT", 0x18),
+    ];
+    for (i, (n, nt)) in slots.iter().enumerate() {
+        let s = sfn_slot(n, 0x20, *nt, Times::default(), 0, 0);
+        img[off + 32 * i..off + 32 * i + 32].copy_from_slice(&s);
+    }
+    vol::cfg_from(&spec.name, img, c)
 }
 
 pub fn small_alphabet_names() -> Vec<String> {
@@ -398,6 +435,12 @@ pub fn run(tier: &str) -> i32 {
             }
         }
     }
+    let fcfg = foreign_cfg();
+    let fjobs: Vec<(String, String, Vec<String>, usize, usize)> = vec![
+        ("foreign-root:hash-colliders".into(), "/".into(), hash_colliders(16), 0, 1),
+        ("foreign-root:hash-colliders:with-removals".into(), "/".into(), hash_colliders(16), 3, 1),
+        ("foreign-root:six-char-prefix".into(), "/".into(), (0..20).map(|i| format!("hcolli-{i}.txt")).collect(), 3, 1),
+    ];
     let capped = AtomicU64::new(0);
     let res: Vec<Vec<(String, String)>> = jobs
         .par_iter()
@@ -409,8 +452,9 @@ pub fn run(tier: &str) -> i32 {
             population(&cfg, dir, names, *rm, *ce, label, &evals)
         })
         .collect();
+    let fres: Vec<Vec<(String, String)>> = fjobs.par_iter().map(|(label, dir, names, rm, ce)| population(&fcfg, dir, names, *rm, *ce, label, &evals)).collect();
     let mut all: BTreeMap<String, (String, u64)> = BTreeMap::new();
-    for (sig, msg) in res.into_iter().flatten() {
+    for (sig, msg) in res.into_iter().chain(fres).flatten() {
         all.entry(sig).or_insert((msg, 0)).1 += 1;
     }
     let mut rep = Report::new("C16", tier, "exploration");
